@@ -33,7 +33,12 @@ pub fn constants(
             rpl.backward()?
                 .into_iter()
                 .fold(Constants::new(), |c, location| {
-                    c.join(&constants[&location.into()])
+                    // a predecessor the fixed point never visited is unreachable
+                    // from the entry: it contributes nothing
+                    match constants.get(&location.into()) {
+                        Some(predecessor) => c.join(predecessor),
+                        None => c,
+                    }
                 }),
         );
     }
